@@ -226,12 +226,16 @@ impl Prop for C07 {
         let zch_resets_ticking = kanata_state_machine::verif_seam::ZCH_EFFECTIVE_FORCED_RESETS.load(std::sync::atomic::Ordering::Relaxed) - zch0;
         let ta = std::mem::take(&mut a.trace);
         let pa = a.probes.clone();
+        let a_too_slow = a.too_slow;
         drop(a);
         // a history that produces output in nearly every millisecond for minutes of simulated time
         // (a repeating macro held down through the long gaps) costs more wall time than the per-run
         // watchdog allows once it is run two more times: left to C02 / C08, counted here
         if ta.outs.len() > 60_000 {
             return RunOut::skip("more-than-60000-outputs");
+        }
+        if a_too_slow {
+            return RunOut::skip("run-longer-than-6s-wall-clock");
         }
         let mut b = match Stepper::new_filtered(&case.cfg, &case.files, Mode::Blocking) {
             Ok(s) => s,
